@@ -751,3 +751,52 @@ Proof. unfold site_crxy. discriminate. Qed.
 Lemma geometry_total_shankmap g sites split srt : (length sites <= NC)%nat ->
   exists t inds, geometry g ShankMap sites split srt = Some (t, inds).
 Proof. intros Hl. apply geometry_defined. split; [exact Hl|]. intros s _. apply shankmap_on_grid. Qed.
+
+(* ================================================================== *)
+(* round 4: geometry_by                                                *)
+(* ================================================================== *)
+Lemma geometry_unsorted_by_spec g e sites split :
+  geometry_unsorted_by (site_crxy g e) g sites split = geometry_unsorted g e sites split.
+Proof. reflexivity. Qed.
+Lemma geometry_by_spec g e sites split srt :
+  geometry_by (site_crxy g e) g sites split srt = geometry g e sites split srt.
+Proof. reflexivity. Qed.
+
+Lemma geometry_unsorted_by_ind f g sites split t :
+  geometry_unsorted_by f g sites split = Some t -> g_ind t = zrange (gsize t).
+Proof.
+  unfold geometry_unsorted_by.
+  destruct (map_opt f sites); [|discriminate]. destruct (adc_shifts g (length sites)) as [[sh adc]|]; [|discriminate].
+  destruct (length sites <=? NC)%nat; [|discriminate]. intros H. inversion H. reflexivity.
+Qed.
+
+(* sorting facts for any entry function: permutation, joint re-indexing, order *)
+Lemma geometry_by_sorted f g sites split t' inds :
+  geometry_by f g sites split true = Some (t', inds) ->
+  exists t, geometry_by f g sites split false = Some (t, zrange (gsize t)) /\
+    inds = lexsort t /\ Permutation inds (zrange (gsize t)) /\
+    columns t' = map (gather inds) (columns t) /\ g_ind t' = inds /\
+    forall i j, 0 <= i -> i < j -> j < Z.of_nat (gsize t) ->
+      ordered_at (g_shank t') (g_row t') (g_col t') (g_ind t') i j.
+Proof.
+  unfold geometry_by. destruct (geometry_unsorted_by f g sites split) as [t|] eqn:E; [|discriminate].
+  intros H. inversion H; subst. exists t.
+  pose proof (geometry_unsorted_by_ind _ _ _ _ _ E) as Hind.
+  split; [reflexivity|]. split; [reflexivity|]. split; [apply lexsort_perm|].
+  split; [reflexivity|]. split; [now apply sorted_ind_is_index|].
+  now apply sorted_columns_ordered.
+Qed.
+
+(* F-C08-b in numbers: for an NPultra geometry-map entry on the pitch, 6 * row = z + 20 is never a
+   multiple of 6, and y is 20 um above the y of the shank-map encoding of the same site *)
+Lemma npu_geom_entry c r sh f :
+  npu_geom_crxy (geom_entry NPU (sh, c, r, f)) = Some (c, 6 * r + 20, 6 * c, 6 * r + 20) /\
+  (6 * r + 20) mod 6 = 2 /\
+  site_crxy NPU ShankMap (sh, c, r, f) = Some (c, r, 6 * c, 6 * r).
+Proof.
+  unfold npu_geom_crxy, geom_entry, site_crxy, s_a, s_b, xy2c, rc2x, rc2y. cbn [fst snd X0 DX Y0 DY].
+  replace (6 * c - 0) with (c * 6) by ring. rewrite exact_div_mul by lia.
+  repeat split.
+  - replace (6 * r + 20) with (2 + (r + 3) * 6) by ring. now rewrite Z_mod_plus_full.
+  - f_equal. f_equal; [f_equal|]; ring.
+Qed.
